@@ -5,6 +5,9 @@ ROOT = os.path.dirname(os.path.dirname(os.path.abspath(__file__)))
 
 # id -> (level, technique, level text, level note, design ref)
 CHECKS = {
+ "C08": ("exploration", "process-boundary + compiler monitor: every generated file is compiled by the real Go compiler together with an API-use file and checked against go/format as a fixed point, under all eight option sets",
+         "Grammars from all profiles plus a surface profile (imports, header comments, state, exotic characters, comments and '*/' in embedded Go code, terminal-free grammars, hundreds of rules; one >65535-rule-id grammar in the thorough tier) are generated with the real peg under the eight -inline/-switch/-noast combinations: exit 0, silent, compiles, gofmt fixed point.",
+         "Held on the grammars produced; user code in the grammar is valid Go by construction; imports are used by the parser state.", "5/C08"),
  "C10": ("exploration", "three runtime monitors over grammar texts: behaviour of generated parsers under spelling variants (reference model), tree equality against an independent hand-written reader of the documented syntax, and rejection of mutated/random texts",
          "Spelling variants of every construct are run through the real front end, generator and compiler and compared with the reference interpreter of the intended AST; the rule tree the real front end builds (read through the tree package's exported methods) must equal, node by node, the tree of an independent reader; whenever that reader rejects a mutated or random text peg must reject with an error and never crash; a sample also goes through the CLI.",
          "Held on the texts produced; trusted: the independent reader (internal/pegsyntax), written from docs/peg-file-syntax.md and the language grammar in peg.peg read as a PEG; ASCII case folding.", "5/C10"),
